@@ -149,7 +149,7 @@ PROPS["C14"] = {
 }
 
 PROPS["C08"] = {
-    "streams": [{"name": "inst"}],
+    "streams": [{"name": "inst"}, {"name": "kports", "model": False}],
     "model_is_spec": ["inst"],
     "spec_theorem": "every reachable model state has at most one Slave port, none on a master-only port, no Master on a slave-only instance (C08.reachable_inv, slave_only_from_start, slave_only_at_runtime) and every emitted frame / measurement is role-guarded (C08.emitters_guarded)",
     "rule": "inst: mixed host histories (all timers, BMCA runs, Announce / Sync / Follow_Up / Delay / Pdelay frames from better, worse, "
@@ -158,10 +158,14 @@ PROPS["C08"] = {
             "type and interface of every emitted frame per port, every sync/delay measurement and every filter demobilisation. "
             "Independent oracle on the implementation alone: <=1 Slave; no master-only Slave; no Master on an instance slave-only from the "
             "start or after slave-only + BMCA; Announce/Sync/Follow_Up/Delay_Resp only from a port that was Master, Delay_Req only from "
-            "the Slave port, sync/delay measurements only on the Slave port. distinct = distinct ops that changed a state, emitted a frame or fed a filter",
+            "the Slave port, sync/delay measurements only on the Slave port. kports (oracle only): instances of one to three ports (E2E / P2P mixed) "
+            "carrying the real KalmanFilter, each port with its own counting handle on the clock; Announces of a better and a worse master, BMCA "
+            "runs, every timer, Sync / Follow_Up / Delay_Resp, complete peer delay exchanges in both directions on every port in random order: a "
+            "host call on a port that is not Slave when the call is made must not adjust the clock through that port. "
+            "distinct = distinct ops that changed a state, emitted a frame or fed a filter (kports: scenarios)",
     "explanation": "Lean: Inv by induction over all host histories (step_inv, reachable_inv), emitters_guarded, slave-only theorems",
     "assumptions": INST_ASSUME + ["every BMCA run is passed every port exactly once (PtpInstance::bmca asserts the count; the borrow checker gives distinctness)",
-                   "'only that port adjusts the clock' is observed as: sync/delay measurements reach a filter only on the Slave port (the clock is steered by the filter, which is the host's)"],
+                   "'only that port adjusts the clock' is observed twice: sync/delay measurements reach a (recording) filter only on the Slave port (inst), and with the real Kalman servo on every port no call on a non-Slave port reaches Clock::set_frequency / step_clock (kports)"],
 }
 
 PROPS["C10"] = {
@@ -404,7 +408,8 @@ PROPS["C17"] = {
     "spec_theorem": "the model's lock trace of every host call is a flat sequence with at most one write acquisition, and calls without a write acquisition leave the shared state alone (C17.writes_at_most_once, no_write_no_change)",
     "rule": "inst / tlv / timed: every op of these streams runs over a recording implementation of the public PtpInstanceStateMutex "
             "trait that logs every acquisition (r / w) and release; compared with the model's lock trace after every op (a nested "
-            "acquisition would read `rw..` instead of `r.w.`); oracle: nesting depth > 1. threads: one instance over the library's own "
+            "acquisition would read `rw..` instead of `r.w.`), together with the parent / current / time-properties data sets as a snapshot "
+            "taken after the call shows them (every member must be the one the model's single update of that call wrote); oracle: nesting depth > 1. threads: one instance over the library's own "
             "std::sync::RwLock implementation, the Slave port handling 1 000 000 (thorough: 8 000 000) Announces per round of its parent that alternate "
             "between two contents differing in every field, while a second thread fires the announce timer of a Master port and a third "
             "takes snapshots through parent_ds / current_ds / time_properties_ds: every Announce and every snapshot must be entirely of "
@@ -492,7 +497,12 @@ def _projection(pid, stream, profile):
         return f8
     if pid == "C17":
         def f17(op, obs):
-            return obs.split(" | L ")[1] if " | L " in obs else None
+            # the lock trace of the call, and what a snapshot of the parent / current / time-properties data sets
+            # shows after it (every member must be of the update the call made, as the model defines it)
+            if " | L " not in obs:
+                return None
+            ds = " | ".join(x for x in obs.split(" | ") if x[:2] in ("D ", "T "))
+            return obs.split(" | L ")[1] + " || " + ds
         return f17
     if pid == "C03":
         def f3(op, obs):
